@@ -1,6 +1,6 @@
 (* C20: dump_to_sql leaves the table in the state its mode prescribes. *)
 From Coq Require Import List ZArith Bool.
-From DF Require Import Base.Str Base.Value Proc.RowOps IO.Sql IO.Sql_proofs.
+From DF Require Import Base.Str Base.Value Proc.RowOps IO.Sql IO.Sql_proofs Base.PyEq_proofs.
 Import ListNotations.
 Open Scope Z_scope.
 
@@ -33,6 +33,29 @@ Theorem C20_update_with_filter : forall ks fp bs init,
   w_table (write_all (Some ks) true fp bs init init rows) = fold_left (upsert ks) rows init.
 Proof. exact update_spec_bloom. Qed.
 Print Assumptions C20_update_with_filter.
+
+(* ... with the equivalence of key equality proved (Base/PyEq_proofs.v), only the filter's
+   key-dependence and the shape of the rows remain as hypotheses *)
+Theorem C20_update_with_filter_unconditional : forall ks fp bs init,
+  (forall a b, key_eq (keyof ks a) (keyof ks b) = true -> fp a = fp b) ->
+  forall rows, (forall r, In r rows -> row_ok ks r) ->
+  w_table (write_all (Some ks) true fp bs init init rows) = fold_left (upsert ks) rows init.
+Proof.
+  intros ks fp bs init Hfp rows OK.
+  apply update_spec_bloom; [exact key_eq_refl|exact key_eq_sym|exact key_eq_trans|exact Hfp|reflexivity|exact OK].
+Qed.
+Print Assumptions C20_update_with_filter_unconditional.
+
+(* the whole dump in update mode, for the exact filter (no false positives) *)
+Theorem C20_update : forall ks ub bs t rows,
+  (forall r, In r rows -> row_ok ks r) ->
+  w_table (impl_dump (Update ks) ub (fun _ => false) bs t rows) = spec_dump (Update ks) t rows.
+Proof.
+  intros ks ub bs t rows OK. destruct ub.
+  - unfold impl_dump, spec_dump. apply C20_update_with_filter_unconditional; [reflexivity|exact OK].
+  - apply update_spec_nobloom.
+Qed.
+Print Assumptions C20_update.
 
 (* any sequence of dumps: the table is the fold of the per-mode specification *)
 Theorem C20_history : forall h,
